@@ -253,6 +253,7 @@ func TestC14(t *testing.T) {
 			"for s in ['', 'ab', '\\u20ac', '\\U0001f600', '\\u00e9x']:\n    _res.append((s, 'ordstr', t(lambda: ord(s))))\n"
 		runC14(r, prog, "ordchr", nil)
 		c14RoundTrip(r)
+		c14CaseSweep(r)
 	}
 	// repr round trip over the code space: quick = the BMP and every 17th astral code point, thorough = everything
 	{
@@ -438,6 +439,91 @@ for n in range(%d, %d, %d):
 			Actual: "failing code points (decimal): " + resp.Obs["_res"] + " exc=" + resp.ExcName()})
 	}
 	r.Sample("sweep", fmt.Sprintf("repr round trip of chr(n), chr(n)+'a1', ('7'+chr(n), [chr(n)]) for n in range(%d, %d, %d)", lo, hi, stride))
+}
+
+// c14CaseSweep: upper() and lower() of every code point against CPython. gpython's tables (the Go unicode package) are of a
+// later Unicode version than CPython 3.6's: a mapping is fenced when the code point itself or
+// a code point of its result is unassigned according to CPython's unicodedata; every mapping CPython has must be reproduced exactly.
+func c14CaseSweep(r *Run) {
+	prog := `_res = []
+for n in range(0x110000):
+    if 0xd800 <= n < 0xe000:
+        continue
+    c = chr(n)
+    u = c.upper()
+    l = c.lower()
+    if u != c or l != c:
+        _res.append((n, [ord(x) for x in u], [ord(x) for x in l]))
+`
+	g := RunProgram(prog, RunOpts{Vars: c14Vars, Timeout: 120 * time.Second})
+	r.Class("case-sweep")
+	if g.Panic != "" || g.Exc != "" || g.Timeout {
+		r.Mismatch(&Case{Kind: "c14rt", Sig: "case-sweep-run:" + g.Panic + g.Exc, Program: prog, Expected: "runs", Actual: g.Panic + g.Exc + " " + g.ExcMsg})
+		return
+	}
+	entries := SplitTop(g.Obs["_res"])
+	var sb strings.Builder
+	sb.WriteString("import unicodedata\nG = {")
+	for _, e := range entries {
+		p := SplitTop(e) // t[in,l[...],l[...]]
+		if len(p) != 3 {
+			r.Infra("case sweep: bad entry %q", e)
+		}
+		conv := func(l string) string {
+			var xs []string
+			for _, x := range SplitTop(l) {
+				xs = append(xs, strings.TrimPrefix(x, "i"))
+			}
+			return "[" + strings.Join(xs, ", ") + "]"
+		}
+		sb.WriteString(strings.TrimPrefix(p[0], "i") + ": (" + conv(p[1]) + ", " + conv(p[2]) + "), ")
+		r.Count("case:"+p[0], true)
+	}
+	sb.WriteString(`}
+_res = []
+_fenced = []
+def new(xs):
+    return any(unicodedata.category(chr(x)) == 'Cn' for x in xs)
+for n in range(0x110000):
+    if 0xd800 <= n < 0xe000:
+        continue
+    c = chr(n)
+    want = ([ord(x) for x in c.upper()], [ord(x) for x in c.lower()])
+    got = G.get(n, ([n], [n]))
+    got = (list(got[0]), list(got[1]))
+    if got != want:
+        if unicodedata.category(c) == 'Cn':
+            _fenced.append(n)
+        elif (got[0] != want[0] and not new(got[0])) or (got[1] != want[1] and not new(got[1])):
+            _res.append((n, want, got))
+        else:
+            _fenced.append(n)
+`)
+	orc, err := GetOracle()
+	if err != nil {
+		r.Infra("%v", err)
+	}
+	resp, err := orc.Run(sb.String(), []string{"_res", "_fenced"}, "", "exec")
+	if err != nil {
+		r.Infra("%v", err)
+	}
+	for range SplitTop(resp.Obs["_fenced"]) {
+		r.Fenced("case-mapping-of-later-unicode-version")
+	}
+	if resp.Obs["_res"] != "l[]" || resp.ExcName() != "" {
+		first := resp.Obs["_res"]
+		if len(first) > 300 {
+			first = first[:300]
+		}
+		small := "_res = []\n_res.append(([ord(x) for x in chr(N).upper()], [ord(x) for x in chr(N).lower()]))\n"
+		if l := SplitTop(resp.Obs["_res"]); len(l) > 0 {
+			if p := SplitTop(l[0]); len(p) > 0 {
+				small = strings.ReplaceAll(small, "N", strings.TrimPrefix(p[0], "i"))
+			}
+		}
+		r.Mismatch(&Case{Kind: "pydiff", Sig: "case-sweep:mapping", Program: small, Vars: c14Vars, Expected: "CPython's upper()/lower() of every code point (mappings into code points of a later Unicode version fenced)", Actual: first + " exc=" + resp.ExcName()})
+	}
+	r.Sample("case-sweep", "chr(n).upper(), chr(n).lower() for every code point n")
 }
 
 func c14RtKind(v string) string {
